@@ -35,6 +35,12 @@ type Family struct {
 	// NoRef: the family has no Go / in-memory reference (multi-realm logic). Observations of the different cuts of a
 	// sequence are compared with each other instead; a transaction may legitimately abort (state unchanged).
 	NoRef bool
+	// Quiet: the transaction that runs the ops does NOT dump the realm (entry point Ops instead of Do), so the realm is
+	// finalized while whatever the ops did not touch is still unloaded; the state is observed by the cold-dump
+	// transaction that follows every transaction (compared with the reference dump).
+	Quiet bool
+	// K overrides the explorer's maximal sequence length for this family (0 = Explorer.K).
+	K int
 
 	mu  sync.Mutex
 	ref map[string]RefEntry
@@ -73,6 +79,15 @@ func Do(cur realm, ops string) string {
 	return out + "#" + dump()
 }
 
+// Ops runs the ops without dumping (quiet families).
+func Ops(cur realm, ops string) string {
+	out := ""
+	for i := 0; i < len(ops); i++ {
+		out += op(ops[i]) + ";"
+	}
+	return out + "#"
+}
+
 func Op(cur realm, c string) string { return op(c[0]) }
 
 func Dump() string { return dump() }
@@ -85,6 +100,14 @@ func (f *Family) Pkgs() []Pkg {
 		w = fmt.Sprintf(wrapperTmpl, f.Name)
 	}
 	return append(append([]Pkg{}, f.Extra...), Pkg{Path: f.Path, Files: map[string]string{"logic.gno": f.Logic, "wrap.gno": w}})
+}
+
+// entry is the realm function that runs a transaction segment ("" = the cold-dump transaction).
+func (f *Family) entry(seg string) string {
+	if f.Quiet && seg != "" {
+		return "Ops"
+	}
+	return "Do"
 }
 
 // Paths lists every package path whose objects make up the family's persisted state.
@@ -171,6 +194,14 @@ type Explorer struct {
 	Mis                                                      []Mismatch
 	Aborts                                                   []Mismatch        // aborted transactions of reference-less families (observations)
 	single                                                   map[string]string // fam|seq -> observed "rets#dump" of the single-tx history
+}
+
+// kOf is the maximal op-sequence length explored for f.
+func (x *Explorer) kOf(f *Family) int {
+	if f.K > 0 {
+		return f.K
+	}
+	return x.K
 }
 
 func (x *Explorer) pkgs() []Pkg {
@@ -280,8 +311,8 @@ func (x *Explorer) Run() {
 	var tasks []task
 	for _, f := range x.Fams {
 		pl := 2
-		if x.K < 2 {
-			pl = x.K
+		if x.kOf(f) < 2 {
+			pl = x.kOf(f)
 		}
 		var gen func(p string)
 		gen = func(p string) {
@@ -324,7 +355,7 @@ func (x *Explorer) Run() {
 }
 
 func (x *Explorer) dfs(e *Env, t task, hist []string, seq string, memo *taskMemo) {
-	remaining := x.K - len(seq)
+	remaining := x.kOf(t.f) - len(seq)
 	if remaining <= 0 || x.R.Expired() {
 		return
 	}
@@ -365,7 +396,7 @@ func (x *Explorer) node(e *Env, t task, hist []string, seq string, memo *taskMem
 	seg := hist[len(hist)-1]
 	pop := e.Push()
 	defer pop()
-	res := e.Call(f.Path, "Do", seg)
+	res := e.Call(f.Path, f.entry(seg), seg)
 	x.Txs.Add(1)
 	x.R.Eval()
 	x.Nodes.Add(1)
@@ -406,12 +437,18 @@ func (x *Explorer) node(e *Env, t task, hist []string, seq string, memo *taskMem
 		x.addMis(Mismatch{Fam: f.Name, Class: "tx-failed", Hist: hist, Seq: seq, Got: "unparsable result " + s, Want: want})
 		return
 	}
+	if f.Quiet {
+		if dump != "" {
+			x.R.HarnessError("quiet family %s returned a dump", f.Name)
+		}
+		dump = ref.Dump // not observed in this transaction: the cold-dump transaction below must show the reference dump
+	}
 	if len(hist) == 1 {
 		x.mu.Lock()
 		x.single[f.Name+"|"+seq] = s
 		x.mu.Unlock()
 	}
-	if len(hist) == 3 && len(seq) == x.K && x.nsample.Add(1) <= 3 {
+	if len(hist) == 3 && len(seq) == x.kOf(f) && x.nsample.Add(1) <= 3 {
 		x.R.Sample(map[string]any{"family": f.Name, "transactions": hist, "ops": f.Describe(seq), "result_of_last_tx": s})
 	}
 	bad, graphBad := false, false
@@ -442,6 +479,9 @@ func (x *Explorer) node(e *Env, t task, hist []string, seq string, memo *taskMem
 	if _, loaded := x.stateSet.LoadOrStore(f.Name+sh, true); !loaded {
 		x.States.Add(1)
 	}
+	if f.Quiet && !x.ColdDump {
+		x.R.HarnessError("quiet family %s needs the cold-dump transaction", f.Name)
+	}
 	if x.ColdDump {
 		// the cold dump is a function of the persisted bytes: run it once per distinct persisted state of the task
 		s2, ok2, r2 := "", true, Res{OK: true}
@@ -463,7 +503,11 @@ func (x *Explorer) node(e *Env, t task, hist []string, seq string, memo *taskMem
 			x.addMis(Mismatch{Fam: f.Name, Class: "tx-failed", Hist: append(append([]string{}, hist...), ""), Seq: seq, Got: FirstLine(r2.Log), Want: "#" + ref.Dump})
 			bad = true
 		} else if s2 != "#"+dump {
-			x.addMis(Mismatch{Fam: f.Name, Class: "dump-cold", Hist: hist, Seq: seq, Got: s2, Want: "#" + dump, Extra: "dump in the tx that ran the ops vs dump in a following tx (reloaded from the store)"})
+			extra := "dump in the tx that ran the ops vs dump in a following tx (reloaded from the store)"
+			if f.Quiet {
+				extra = "quiet family: dump in the tx following the ops (reloaded from the store) vs dump of the in-memory GnoVM run"
+			}
+			x.addMis(Mismatch{Fam: f.Name, Class: "dump-cold", Hist: hist, Seq: seq, Got: s2, Want: "#" + dump, Extra: extra})
 			bad = true
 		}
 	}
@@ -476,7 +520,7 @@ func (x *Explorer) node(e *Env, t task, hist []string, seq string, memo *taskMem
 	} else {
 		x.R.Outcome(fmt.Sprintf("ok:txs=%d", len(hist)))
 	}
-	remaining := x.K - len(seq)
+	remaining := x.kOf(f) - len(seq)
 	if remaining <= 0 {
 		return
 	}
@@ -570,7 +614,7 @@ func (x *Explorer) Replay(f *Family, m Mismatch) (string, error) {
 	}
 	var last Res
 	for _, seg := range m.Hist {
-		last = e.Call(f.Path, "Do", seg)
+		last = e.Call(f.Path, f.entry(seg), seg)
 	}
 	if m.Class == "dump-cold" {
 		last = e.Call(f.Path, "Do", "")
@@ -643,7 +687,7 @@ func (x *Explorer) GoDiffs() []GoDiff {
 					d.Count++
 				}
 			}
-			if len(s) == x.K {
+			if len(s) == x.kOf(f) {
 				return
 			}
 			for i := 0; i < len(f.Ops); i++ {
@@ -694,7 +738,7 @@ func (x *Explorer) RunScripts(kmax int) {
 				return
 			}
 			x.runScript(e, t.f, s)
-			if len(s) == kmax {
+			if len(s) >= kmax+x.kOf(t.f)-x.K {
 				return
 			}
 			for j := 0; j < len(t.f.Ops); j++ {
